@@ -277,7 +277,7 @@ func (u *cUniverse) exec(c cOp, reg lint.Registry, objs []*Target) (rep cReply, 
 			sort.Strings(rep.Set)
 		case "Listing":
 			var buf bytes.Buffer
-			reg.WriteJSON(&buf)
+			reg.WriteJSON(&slowWriter{w: &buf}) // a writer that takes its time, as a network connection or a terminal would
 			ns := []string{}
 			sc := bufio.NewScanner(&buf)
 			sc.Buffer(make([]byte, 1<<20), 1<<20)
@@ -312,6 +312,25 @@ func (u *cUniverse) filterReply(rep *cReply, nr lint.Registry) {
 	for _, k := range []string{"cert", "crl", "ocsp"} {
 		rep.Kinds[k] = u.ranks(lintsOfPlain(nr, k))
 	}
+}
+
+// slowWriter yields the processor before consuming what it is given.
+type slowWriter struct{ w *bytes.Buffer }
+
+func (s *slowWriter) Write(p []byte) (int, error) {
+	runtime.Gosched()
+	n := 0
+	for len(p) > 0 {
+		k := len(p)
+		if k > 4096 {
+			k = 4096
+		}
+		s.w.Write(p[:k])
+		p = p[k:]
+		n += k
+		runtime.Gosched()
+	}
+	return n, nil
 }
 
 // lintsOfPlain lists the names of a lookup's Lints() without constructing lint instances.
@@ -798,6 +817,11 @@ func freePrograms(rng *rand.Rand, u *cUniverse, ng, nops int, objs []*Target) ([
 		for i := 0; i < nops; i++ {
 			r := mine[rng.Intn(len(mine))]
 			x := rng.Intn(10)
+			if g >= ng-2 && ng > 3 && i > 0 && x < 7 {
+				// the last two goroutines are "listers": they write the listing of whatever registries are around, again and again
+				progs[g] = append(progs[g], cOp{Op: "Read", What: "Listing", R: r, Ks: []string{"cert", "ocsp", "crl"}})
+				continue
+			}
 			switch {
 			case i == 0 || x < 6:
 				o := 1 + rng.Intn(len(objs))
